@@ -446,6 +446,7 @@ func c02Entries() []c02Entry {
 // in a child process; a crash is reported with the case that was running and the run goes on behind it
 func runC02(o *Out) {
 	slicePoolProbe(o, "C02")
+	c15EmbeddedGenerated(o) // which field an object key reaches through embedded structs (shared with C15)
 	self, _ := os.Executable()
 	startAll := time.Now()
 	skip := 0
